@@ -15,7 +15,8 @@ class C03(Prop):
     verdict = "Gamut.verdict"
     shard = 80
     rule = ("systems 2-5 receptors x 1-8 sources, lb zero/non-zero, ub finite/inf, K none/scalar/vector/matrix, baseline zero/scalar/vector, relative and "
-            "absolute capture, plain and L1-normalised (chromatic) membership; entry ReceptorEstimator.in_hull / in_gamut; targets: images of strictly "
+            "absolute capture, plain and L1-normalised (chromatic) membership; opponent-type matrix K (negative entries in K A); 15 % of the finite-bound "
+            "systems asked in other units (spectra, baseline, target x 2^20, 2^30, 2^-20); entry ReceptorEstimator.in_hull / in_gamut; targets: images of strictly "
             "interior intensities (kind 0: must be accepted, in EVERY configuration), targets with a HiGHS separating hyperplane of margin >= 1e-3 x gamut "
             "extent (kind 1: must be rejected; asserted for finite bounds and full-dimensional gamut only), faces/vertices/near-boundary/far targets with no "
             "prior claim (kind 2: if accepted, a reproducing in-bound x within 1e-6 must exist). non-trivial = kind 1, or kind 0 with non-identity K and non-zero lb or baseline")
@@ -52,8 +53,19 @@ class C03(Prop):
                 base2 = np.array([rng.randint(0, 16) / 4 for _ in range(m)])
                 if gs.well_scaled(sys["A"], sys["lb"], sys["ub"], K2, base2):
                     sys = dict(sys, K=K2, baseline=base2, bkind="vector")
+            opp = False
+            if sys["Kkind"] == "matrix" and not norm and rng.random() < 0.5:
+                # opponent channels (receptor i minus 0.5 .. 1 times receptor j): transformed captures DEcrease with the intensity of some
+                # sources, so reproducible targets lie below the dark corner of the gamut in those channels
+                K2 = np.eye(m)
+                for i in range(m):
+                    if rng.random() < 0.7:
+                        K2[i, rng.choice([j for j in range(m) if j != i])] = -rng.choice([0.5, 0.75, 1.0])
+                base2 = np.array([rng.randint(0, 16) / 4 for _ in range(m)])
+                if gs.well_scaled(sys["A"], sys["lb"], sys["ub"], K2, base2) and np.any(K2 @ sys["A"] < 0):
+                    sys = dict(sys, K=K2, baseline=base2, bkind="vector"); opp = True
             lb = sys["lb"]; ubf = np.where(np.isfinite(sys["ub"]), sys["ub"], lb + 8.0)
-            tk = rng.choice(["interior", "interior", "nearin", "outside", "outside", "nearout", "nearout", "beyond", "beyond", "face", "vertex", "near", "far", "dim", "below"])
+            tk = rng.choice((["interior", "nearin", "interior", "dim"] if (opp and rng.random() < 0.6) else []) or ["interior", "interior", "nearin", "outside", "outside", "nearout", "nearout", "beyond", "beyond", "face", "vertex", "near", "far", "dim", "below"])
             if norm and rng.random() < 0.6:
                 # a baseline concentrated on one receptor: its chromaticity (the dark corner of the chromatic gamut) is then an extreme point
                 base2 = np.array([rng.randint(0, 2) / 4 for _ in range(m)]); base2[rng.randrange(m)] = rng.randint(16, 48) / 4
@@ -112,10 +124,16 @@ class C03(Prop):
                 b = b + np.array([rng.randint(-8, 8) / 8 for _ in range(m)]) * ext * rng.choice([1 / 256, 1 / 64, 1 / 16])
             if norm and (np.any(b <= 0)):
                 continue
+            # other physical units (photon flux instead of adapted units): spectra, baseline and target exactly 2^20 / 2^30 / 2^-20 times
+            # larger; asked of the triangulation path only (finite bounds, as many sources as receptors) -- the absolute tests of the
+            # fallback paths are the known findings D6 / D12
+            unit = 0
+            if fin and nn >= m and via_adapt is None and rng.random() < 0.15:
+                unit = rng.choice([20, 30, 30, -20])
             cases.append({"sys": {k: (v.tolist() if isinstance(v, np.ndarray) else v) for k, v in sys.items()},
-                          "relative": relative, "norm": norm, "b": b.tolist(), "x": x.tolist(), "tk": tk, "via_adapt": via_adapt,
-                          "kind": "%s/%s/%s/ub-%s/%s" % (tk, "norm" if norm else "plain", "rel" if relative else "abs",
-                                                         "fin" if fin else "inf", "flat" if nn < m else "full")})
+                          "relative": relative, "norm": norm, "b": b.tolist(), "x": x.tolist(), "tk": tk, "via_adapt": via_adapt, "unit": unit,
+                          "kind": "%s/%s/%s/ub-%s/%s%s%s" % (tk, "norm" if norm else "plain", "rel" if relative else "abs",
+                                                         "fin" if fin else "inf", "flat" if nn < m else "full", "/opponent" if opp else "", "/unit2^%d" % unit if unit else "")})
         return cases
 
     def run_impl(self, case):
@@ -128,6 +146,10 @@ class C03(Prop):
             est.register_system_adaptation(np.asarray(case["via_adapt"], dtype=float))
             assert np.array_equal(est.K, sys["K"]), "adaptation K differs from the recorded one"
         else:
+            u = 2.0 ** case.get("unit", 0)
+            if u != 1.0:
+                sys = dict(sys, A=sys["A"] * u, baseline=(np.asarray(sys["baseline"], dtype=float) * u if np.ndim(sys["baseline"]) else float(sys["baseline"]) * u))
+                B = B * u
             est = gs.make_estimator(sys)
         core.drain_hooks()
         r = est.in_hull(B, relative=case["relative"], normalized=case["norm"])
